@@ -130,8 +130,17 @@ class PEval:
                     parts.append(str(v.value))
                 else:
                     x = self.ev(v.value, st)
+                    spec_c = None
+                    if v.format_spec is not None and all(isinstance(p_, ast.Constant) for p_ in v.format_spec.values):
+                        spec_c = ''.join(str(p_.value) for p_ in v.format_spec.values)
                     if known(x) and v.format_spec is None and v.conversion in (-1, 115):
                         parts.append(str(x))
+                    elif known(x) and spec_c is not None and v.conversion == -1 and isinstance(x, (int, float, str)):
+                        try:
+                            parts.append(format(x, spec_c))
+                        except Exception:
+                            all_known = False
+                            parts.append('{' + show(x) + ':' + spec_c + '}')
                     else:
                         all_known = False
                         spec = ':' + ''.join(str(p.value) for p in v.format_spec.values if isinstance(p, ast.Constant)) if v.format_spec is not None else ''
